@@ -5,7 +5,7 @@
    known_findings.json; what does hold is proved as _partial. *)
 From FMP Require Import Base.Bytes Base.Lts Model.Events Model.Skeleton Model.Props Model.Dispatch
      Proofs.DispatchProofs Proofs.SkeletonProofs.
-From FMP Require Import Model.Paths Proofs.PathProofs.
+From FMP Require Import Model.Paths Proofs.PathsC12.
 Open Scope Z_scope.
 
 (* full statement, refuted: a schedule of the model on which the buffer changes after the call returned
@@ -42,7 +42,7 @@ Proof. exact (conj generated_ok eq_refl). Qed.
 
 (* on every path through the function body as it is in the source now (regenerated into Generated.body_census, enumerated by Model/Paths.v) of rpcResponseMessage.DecodeMessage: the call is looked up (once) before anything is unwrapped, and nothing is unwrapped or decompressed for an unknown seqno *)
 Theorem C12_source_lookup_before_unwrap : response_paths_unknown_ignored = true.
-Proof. exact paths_response_unknown_ignored. Qed.
+Proof. exact paths_response_lookup_first. Qed.
 
 Print Assumptions C12_no_write_after_return_refuted.
 Print Assumptions C12_duplicate_reply_refuted.
